@@ -51,6 +51,9 @@ ResizeFill(o, n, v) == /\ o \in MutObjs /\ Live(o) /\ n \in 0..MaxLen /\ v \in V
 \* default-constructed / unspecified cell (0) copies as such
 ResizeFillFrom(o, n, i) == /\ o \in MutObjs /\ Live(o) /\ n \in 0..MaxLen /\ i \in 1..Len(arr[o])
                            /\ Set(o, [j \in 1..n |-> IF j <= Len(arr[o]) THEN arr[o][j] ELSE arr[o][i]]) /\ Keep
+\* a = a and a = std::move(a): nothing changes
+SelfCopyAssign(o) == o \in MutObjs /\ Live(o) /\ UNCHANGED avars
+SelfMoveAssign(o) == o \in MutObjs /\ Live(o) /\ UNCHANGED avars
 Write(o, i, v) == /\ o \in MutObjs /\ Live(o) /\ i \in 1..Len(arr[o]) /\ v \in Vals
                   /\ Set(o, [arr[o] EXCEPT ![i] = v]) /\ Keep
 
@@ -81,6 +84,7 @@ ANext == \E o \in Objs :
            \/ \E i \in 1..MaxLen, v \in Vals : Write(o, i, v)
            \/ \E n \in 0..MaxLen, i \in 1..MaxLen : ResizeFillFrom(o, n, i)
            \/ CopyConstruct(o) \/ CopyAssign(o) \/ MoveConstruct(o) \/ MoveAssign(o) \/ Swap(o) \/ Destroy(o)
+           \/ SelfCopyAssign(o) \/ SelfMoveAssign(o)
 ASpec == AInit /\ [][ANext]_avars
 
 \* C14 on the model: copies are independent (a Write to one object never changes the other) --
